@@ -154,11 +154,15 @@ class SetEncoder(encoder.SequenceEncoder):
 
         if asn1Spec.typeId == univ.Choice.typeId and not asn1Spec.tagSet:
             if asn1Spec.tagSet:
-                return asn1Spec.tagSet
+                tagSet = asn1Spec.tagSet
             else:
-                return asn1Spec.componentType.minTagSet
+                tagSet = asn1Spec.componentType.minTagSet
         else:
-            return asn1Spec.tagSet
+            tagSet = asn1Spec.tagSet
+
+        # components are ordered by the tag their encoding starts with,
+        # which for EXPLICIT tagging is the outermost one (X.690 8.12, 9.3)
+        return tagSet[-1:]
 
     def encodeValue(self, value, asn1Spec, encodeFun, **options):
 
